@@ -528,22 +528,44 @@ func ruleVParamAlways(c *engine.Context) *report.Rule {
 			continue
 		}
 		r.Instances++
-		var inv *ssa.Call
+		// must-pass-through: on every path to a return the operand (a value of the query interface
+		// loaded from the receiver) has been invoked
+		has := map[*ssa.BasicBlock]bool{}
+		ninv := 0
 		for _, b := range fn.Blocks {
 			for _, ins := range b.Instrs {
 				if call, ok := ins.(*ssa.Call); ok && call.Call.IsInvoke() && types.Identical(call.Call.Value.Type(), p.Roles.QueryIface) {
-					inv = call
+					has[b] = true
+					ninv++
 				}
 			}
 		}
-		ok2 := inv != nil
-		var at ssa.Instruction
-		if ok2 {
+		out := map[*ssa.BasicBlock]bool{}
+		for _, b := range fn.Blocks {
+			out[b] = true
+		}
+		for changed := true; changed; {
+			changed = false
 			for _, b := range fn.Blocks {
-				if ret, isRet := b.Instrs[len(b.Instrs)-1].(*ssa.Return); isRet && b.Comment != "recover" {
-					if !(inv.Block() == b || inv.Block().Dominates(b)) {
-						ok2, at = false, ret
+				v := len(b.Preds) > 0
+				for _, pb := range b.Preds {
+					if !out[pb] {
+						v = false
 					}
+				}
+				v = v || has[b]
+				if v != out[b] {
+					out[b] = v
+					changed = true
+				}
+			}
+		}
+		ok2 := ninv > 0
+		var at ssa.Instruction
+		for _, b := range fn.Blocks {
+			if ret, isRet := b.Instrs[len(b.Instrs)-1].(*ssa.Return); isRet && b != fn.Recover {
+				if !out[b] {
+					ok2, at = false, ret
 				}
 			}
 		}
